@@ -1026,7 +1026,7 @@ def stable(sv, depth=0):
     """line-number-free rendering of a SV used in site keys"""
     if not isinstance(sv, tuple) or not sv:
         return str(sv)
-    if depth > 6:
+    if depth > 12:
         return "_"
     h = sv[0]
     r = lambda x: stable(x, depth + 1)
